@@ -25,9 +25,11 @@ from mc import worlds as W
 from mc import refmodels as R
 
 import action_obj        # repo module (for the flush seam)
+import column as column_mod   # repo module (for the col-set seam)
 
 LEVEL = 'fault_enumeration'
-SEAMS = ('doc-before', 'doc-after', 'rebuild', 'autoremove', 'flush')
+SEAMS = ('doc-before', 'doc-after', 'rebuild', 'autoremove', 'flush', 'col-set')
+COLSET_CAP = 90      # per bundle: first 30, last 30 and 30 evenly spaced crossings beyond that
 
 
 class InjectedFault(Exception):
@@ -37,8 +39,9 @@ class InjectedFault(Exception):
 class Seams(object):
   """Installs counting / one-shot faulting wrappers on one engine."""
 
-  def __init__(self, doc, fault=None):
+  def __init__(self, doc, fault=None, colset=True):
     self.doc = doc
+    self.colset = colset
     self.fault = fault            # (seam, i) or None
     self.counts = dict.fromkeys(SEAMS, 0)
     self.phase = 'actions'
@@ -57,12 +60,28 @@ class Seams(object):
         me.fired = (seam, me.counts[seam], me.phase, detail)
         raise InjectedFault("%s #%d" % (seam, me.counts[seam]))
 
+    self._depth = 0
+    self._dname = None
+    self._orig_set = column_mod.BaseColumn.set
+
     def apply_doc_action(doc_action):
       name = type(doc_action).__name__
       hit('doc-before', name)
-      r = orig_apply(doc_action)
+      me._depth += 1
+      saved, me._dname = me._dname, name
+      try:
+        r = orig_apply(doc_action)
+      finally:
+        me._depth -= 1
+        me._dname = saved
       hit('doc-after', name)
       return r
+
+    def col_set(col, row_id, value):
+      # i-th write of a cell inside a doc action (mid-action failure)
+      if me._depth > 0 and me.colset:
+        hit('col-set', me._dname)
+      return me._orig_set(col, row_id, value)
 
     def rebuild_usercode():
       hit('rebuild')
@@ -85,6 +104,7 @@ class Seams(object):
     eng.docmodel.apply_auto_removes = apply_auto_removes
     eng._maybe_update_trigger_dependencies = maybe_trig
     action_obj.ActionGroup.flush_calc_changes = flush
+    column_mod.BaseColumn.set = col_set
 
   def remove(self):
     eng = self.doc.eng
@@ -92,6 +112,7 @@ class Seams(object):
       eng.__dict__.pop(name, None)
     eng.docmodel.__dict__.pop('apply_auto_removes', None)
     action_obj.ActionGroup.flush_calc_changes = self._orig_flush
+    column_mod.BaseColumn.set = self._orig_set
 
 
 def followups(world, doc):
@@ -120,8 +141,9 @@ def _reply(g):
 class NoTrace(Monitor):
   name = 'no-trace'
 
-  def __init__(self, inject=True):
+  def __init__(self, inject=True, tier='quick'):
     self.inject = inject
+    self.tier = tier
 
   # -- oracle ---------------------------------------------------------------------------------
   def after_failure(self, ctx, doc, pre_dump, kind, detail):
@@ -202,7 +224,18 @@ class NoTrace(Monitor):
       return      # nondeterministic? the explorer's run succeeded; be conservative
     jobs = []
     for seam in SEAMS:
-      for i in range(1, s0.counts[seam] + 1):
+      n = s0.counts[seam]
+      idxs = list(range(1, n + 1))
+      if seam == 'col-set':
+        if ctx.world.name not in COLSET_WORLDS[self.tier]:
+          continue
+        if n > COLSET_CAP:
+          third = COLSET_CAP // 3
+          mid = idxs[third:-third]
+          step = max(1, len(mid) // third)
+          idxs = idxs[:third] + mid[::step][:third] + idxs[-third:]
+          ctx.extra['colset_capped_bundles'] = 1
+      for i in idxs:
         jobs.append((ctx.world.name, ctx.origin, list(ctx.hist), ctx.label, ctx.bundle, seam, i))
     ctx.extra['fault_jobs'] = jobs
 
@@ -247,7 +280,7 @@ def run_fault_chunk(jobs):
     else:
       out['raised'] += 1
       fseam, fi, phase, dname = s.fired
-      kind = 'injected/%s/%s%s' % (fseam, phase, ('/' + dname) if dname and phase == 'actions' else '')
+      kind = 'injected/%s/%s%s' % (fseam, phase, ('/' + dname) if dname and (phase == 'actions' or fseam == 'col-set') else '')
       detail = '%s #%d in %s phase%s' % (fseam, fi, phase, (' at ' + dname) if dname else '')
       results = list(mon.after_failure(ctx, d, pre_dump, kind, detail))
     for res in results:
@@ -266,11 +299,14 @@ def _worlds(tier):
   return [W.WSchema(calc_failure=True) if w.name == 'W_schema' else w for w in ws]
 
 
-P = HistProp('C04', _worlds, lambda w, t: [NoTrace()], D,
+COLSET_WORLDS = {'quick': ('W_rec', 'W_2way', 'W_trig'), 'thorough': ('W_rec', 'W_2way', 'W_trig', 'W_schema', 'W_sum')}
+
+P = HistProp('C04', _worlds, lambda w, t: [NoTrace(tier=t)], D,
              origins={'quick': ('L',), 'thorough': ('L',)},
              rule='for every (state, bundle) up to the depth: natural failures + one injected '
                   'exception at every crossing of every seam (doc-before, doc-after, rebuild, '
-                  'autoremove, flush); oracle: the call raised => dump, schema, Calculate and the '
+                  'autoremove, flush, and col-set = every cell write inside a doc action, capped at 90 '
+                  'crossings per bundle); oracle: the call raised => dump, schema, Calculate and the '
                   'behaviour of three follow-up bundles are exactly those of an engine that never saw '
                   'the failure; non-trivial = the faulted bundle raised after at least one seam '
                   'crossing', budget={'quick': 900, 'thorough': 6000})
